@@ -529,21 +529,15 @@ func passCompleteRule(p *chk.Prog, r *chk.Report) {
 		}
 		n++
 		ok, pos := true, rs.Pos()
-		head, _, _ := g.RangeBlocks(rs)
-		for _, h := range g.Find(isHandler) {
-			if !chk.InBody(rs, h.Node) {
-				continue
-			}
-			// from the handler call on, without going round to the next element: anything outside the loop body that is
-			// reached, or a return inside it, ends the pass early
-			w := (&chk.Walk{G: g, From: h, Hit: func(n ast.Node) bool {
-				if _, isRet := n.(*ast.ReturnStmt); isRet {
-					return true
+		// path by path (the answer of an expanded helper travels through result variables: `err = nil` on the paths
+		// behind the handler makes the later `if err != nil { return }` unreachable from them)
+		notHandled := chk.GNot(chk.GEvent(func(n ast.Node) bool { return chk.InBody(rs, n) && isHandler(n) }))
+		for _, e := range g.LoopIterationWithReturns(rs, notHandled) {
+			if e.Break && !e.OK {
+				ok = false
+				if e.From != nil && len(e.From.Nodes) > 0 {
+					pos = e.From.Nodes[len(e.From.Nodes)-1].Pos()
 				}
-				return !chk.InBody(rs, n) && !chk.Encloses(rs, n)
-			}, Cut: func(b *cfgBlock, k int) bool { return b.Succs[k] == head }}).Run()
-			if w.Found {
-				ok, pos = false, posOf(w, f)
 			}
 		}
 		x.Check("reprocessAll:handler-answer-never-ends-the-pass", pos, ok, "", "the pass over the Services can end right after the handler answered for one of them (fail-fast): the Services sorted after a failing one are not re-evaluated by this pass, nor by its retries while the failure lasts")
